@@ -132,6 +132,103 @@ def work(job):
     return len(progs), sigs, vios, crashes, agg, sample
 
 
+# ------------------------------------------------------------------ WebSocket frames
+# The pure engine judges the CoAP bytes inside a frame (RFC 8323 s4: Len nibble 0); the
+# RFC 6455 frame around them is written by the session layer, so that part runs in the closed
+# world: a WebSocket client session sends messages whose serialised sizes sweep the 7-bit /
+# 16-bit / 64-bit payload-length forms, and everything the client writes after the upgrade
+# request must parse as whole masked binary frames whose payloads decode to those messages.
+
+def ws_frames(job):
+    from .. import world
+    from . import c05
+    idx, sizes, exe = job
+    run = common.Run("C01", "quick", "exploration")
+    r = common.rng("c01-ws-%d" % idx)
+    stats = {"ws_frames": 0, "ws_sizes": 0}
+    sigs = set()
+    w = world.World(exe, seed=r.getrandbits(30), cmd_timeout=60)
+    wit = {"kind": "ws-frames", "sizes": sizes[:40], "script": w.script}
+    try:
+        w.cmd("node 0")
+        w.cmd("ctx 0 max_token=64 csm_max=200000")
+        log = list(w.cmd("sess 0 0 ws %s" % c05.WS_CLIENT_PEER))
+        conn = [e["conn"] for e in log if e["e"] == "tcp_connect"]
+        reqb = b"".join(bytes.fromhex(e["b"]) for e in log if e["e"] == "swrite")
+        if not conn or not reqb:
+            raise common.Inconclusive("no WebSocket client session")
+        csm = cw.msg(0xE1, options=[(2, (200000).to_bytes(3, "big"))])
+        key = b""
+        for line in reqb.split(b"\r\n"):
+            if line.lower().startswith(b"sec-websocket-key:"):
+                key = line.split(b":", 1)[1].strip()
+        import base64
+        import hashlib
+        acc = base64.b64encode(hashlib.sha1(key + c05.WS_GUID).digest())
+        hello = (b"HTTP/1.1 101 Switching Protocols\r\nUpgrade: websocket\r\nConnection: "
+                 b"Upgrade\r\nSec-WebSocket-Accept: " + acc +
+                 b"\r\nSec-WebSocket-Protocol: coap\r\n\r\n" + cw.ws_frame(cw.encode(csm, "ws")))
+        log = w.cmd("stream %d 1 %s" % (conn[0], hello.hex()))
+        written = b"".join(bytes.fromhex(e["b"]) for e in log if e["e"] == "swrite")
+        sent = []
+        for k, size in enumerate(sizes):
+            tok = bytes([0xC0 | (k >> 8) & 0x3f, k & 0xff])
+            code = r.choice([2, 3, 1, 5])
+            base = 2 + len(tok) + 2 + 1          # header, token, Uri-Path "r", marker
+            pl = bytes(r.getrandbits(8) for _ in range(min(size - base, 64)))
+            pl = pl + bytes(size - base - len(pl))
+            m = cw.msg(code, token=tok, options=[(11, b"r")], payload=pl)
+            evs = w.cmd("send 0 0 type=0 code=%d token=%s opts=11=72 payload=%s" %
+                        (code, tok.hex(), pl.hex()))
+            written += b"".join(bytes.fromhex(e["b"]) for e in evs if e["e"] == "swrite")
+            if any(e["e"] == "sent" and e.get("mid", 0) >= 0 for e in evs) or True:
+                sent.append(m)
+        frames, rest = cw.ws_parse_frames(written)
+        data = [f for f in frames if f[1] == 2]
+        stats["ws_frames"] += len(data)
+        # the client's own CSM comes first
+        got = []
+        for fin, op, pl in data:
+            try:
+                got.append(cw.decode(pl, "ws"))
+            except Exception as e:        # noqa: BLE001 - any reference-decoder refusal
+                got.append(None)
+        got = [g for g in got if g is None or g["code"] != 0xE1]
+        bad = None
+        if rest:
+            bad = "bytes that are no whole frame remain at the end (%d)" % len(rest)
+        elif any(not fin or op not in (2, 8, 9, 10) for fin, op, _ in frames):
+            bad = "a frame with FIN=0 or an opcode that is not binary/close/ping/pong"
+        elif len(got) != len(sent):
+            bad = "%d messages sent, %d binary frames with a message written" % (len(sent), len(got))
+        else:
+            for m, g in zip(sent, got):
+                if g is None or (g["code"], g["token"], g["options"], g["payload"]) != \
+                        (m["code"], m["token"], m["options"], m["payload"]):
+                    bad = "the frame for the %d-byte message does not decode to it" % \
+                        len(cw.encode(m, "ws"))
+                    break
+        if bad:
+            n = len(cw.encode(sent[min(len(got), len(sent)) - 1], "ws")) if sent else 0
+            run.violation("ws-frame-malformed/%s" % ("len-7bit" if n < 126 else "len-16bit"
+                                                      if n < 65536 else "len-64bit"), wit, bad)
+        for m in sent:
+            n = len(cw.encode(m, "ws"))
+            sigs.add(("ws-frame", 0 if n < 126 else 1 if n < 65536 else 2, n if n < 140 else
+                      n // 4096))
+        stats["ws_sizes"] += len(sent)
+        evs, rc, err = w.close()
+        if rc not in (0, None):
+            sg = common.sanitizer_signature(err) or "exit-rc%s" % rc
+            run.violation("ws-frames/teardown/%s" % sg, dict(wit, stderr=err[-3000:]), err[-1500:])
+    except world.WorldCrash as e:
+        world.crash_violation(run, "ws-frames", e, wit)
+    finally:
+        if not w.closed:
+            w.close(kill=True)
+    return stats, sigs, run.export()
+
+
 def main(tier):
     run = common.Run("C01", tier, "exploration")
     run.rule = ("build programs coap_pdu_init -> coap_add_token -> shuffled coap_add_option / "
@@ -143,7 +240,6 @@ def main(tier):
                 "class, delta classes, length classes, payload class, max-size class, "
                 "repetition) signatures")
     run.assumptions = ["vf/refs/coapwire.py and vf/pdumodel.py are the trusted model",
-                       "a refused Proxy-Uri/Proxy-Scheme add may leave the implicit Hop-Limit",
                        "refusals are not predicted (the property constrains what a refusal may "
                        "do, not when the API refuses)"]
     exe = build.ensure_harness("asan", "pure", ["pure.c", "pure_uri.c", "pure_wk.c"])
@@ -163,6 +259,25 @@ def main(tier):
             run.violation("sanitizer/" + sig, w, w.get("stderr", "")[-1200:])
         if sample:
             run.sample(sample)
+    # RFC 6455 frames around the messages (closed world, WebSocket client session)
+    wexe = build.ensure_world("asan")
+    edge = list(range(100, 140)) + [65520 + i for i in range(0, 32)]
+    wjobs = []
+    rr = common.rng("c01-ws-sizes")
+    for i in range(4 if tier == "quick" else 32):
+        sizes = edge[i % 2::2] if i < 2 else \
+            sorted(rr.sample(range(8, 1400), 30) + rr.sample(range(1400, 70000), 6) +
+                   [rr.choice([125, 126, 127, 128, 65535, 65536, 65537])])
+        wjobs.append((i, sizes, wexe))
+    wtot = {}
+    for st, sg, vios in common.parallel_map(ws_frames, wjobs):
+        for k, v in st.items():
+            wtot[k] = wtot.get(k, 0) + v
+        run.nontrivial |= sg
+        run.merge(vios)
+    run.evaluations += wtot.get("ws_sizes", 0)
+    run.extra.update(wtot)
+    run.require("ws_frames_parsed", wtot.get("ws_frames", 0), 100)
     run.extra["api_calls_judged"] = agg.get("steps", 0)
     run.extra["calls_accepted"] = agg.get("accepted", 0)
     run.extra["calls_refused"] = agg.get("refused", 0)
